@@ -14,7 +14,7 @@ from vf.taps.montap import montap
 
 LEVEL = "fault_enumeration"
 RULE = (
-    "fault enumeration: valid generated programs (a third of them with runs of statements moved into (nested) .include files) x 59 classes of definite error (invalid characters incl. NUL / DEL / non-ASCII, unterminated string, unknown keyword, "
+    "fault enumeration: valid generated programs (a third of them with runs of statements moved into (nested) .include files) x 62 classes of definite error (invalid characters incl. NUL / DEL / non-ASCII, unterminated string, unknown keyword, "
     "missing brace, a brace closed once too often, a macro defined only in a branch / loop that is not assembled or below its application, a byte that is no valid UTF-8 inside a source file (file entry points), a misspelled .map attribute, missing operand, undefined symbol in a sized operand / in data, undefined macro, too few macro arguments, undefined symbol in a macro argument the body never reads, in an unused `=` symbol, in `*=`, unsupported "
     "addressing mode, unsupported width, out-of-range branch, unmapped address, missing .include/.incbin/.table/.include_ips file) inserted "
     "at every statement position that is always expanded (thorough) or 6 positions (quick) x 5 entry points (string API, Program.assemble, "
@@ -89,6 +89,11 @@ FAULTS = {
     "qualified_name_of_non_member": ("semantic", "reset_zz9 = 5\n.scope gfx_zz9 {\nplot_zz9:\n.dw gfx_zz9.reset_zz9\n}"),
     "qualified_name_of_non_member_in_inner_block": ("semantic", "reset_zz9:\n.scope gfx_zz9 {\nplot_zz9 = 1\n{\njmp.w gfx_zz9.reset_zz9\n}\n}"),
     "qualified_name_of_sibling_scope_non_member": ("semantic", ".scope snd_zz9 {\nreset_zz9:\n}\n.scope gfx_zz9 {\nplot_zz9:\n}\n.dw gfx_zz9.reset_zz9"),
+    # too few arguments where nothing else would stop the assembly: the parameter left out is named like an outer symbol, is read only by a
+    # condition, or is not read at all
+    "too_few_arguments_parameter_named_like_outer_symbol": ("semantic", "addr_zz9 = 0x2100\n.macro poke_zz9(value_zz9, addr_zz9) {\nlda.b #value_zz9\nsta.w addr_zz9\n}\npoke_zz9(0x42)"),
+    "too_few_arguments_parameter_only_in_condition": ("semantic", ".macro opt_zz9(pa_zz9, flag_zz9) {\n.db pa_zz9\n.if flag_zz9 {\n.db 1\n}\n}\nopt_zz9(3)"),
+    "too_few_arguments_parameter_not_read": ("semantic", ".macro sink3_zz9(pa_zz9, pb_zz9, pc_zz9) {\n.db pa_zz9\n}\nsink3_zz9(1, 2)"),
     "missing_include": ("syntax", ".include 'nofile_zz9.s'"),
     "missing_incbin": ("semantic", ".incbin 'nofile_zz9.bin'"),
     "missing_table": ("semantic", ".table 'nofile_zz9.tbl'"),
@@ -201,14 +206,26 @@ def check_fault(res: Res, p: dict, name: str, where: tuple[list, int], entries: 
         files["good_zz9.ips"] = b"PATCH\x00\x10\x00\x00\x02\xaa\xbbEOF"
     finally:
         del lst[i]
+    # a third of the faulty sources are assembled with the symbol table dump switched on (Program(dump_symbols=True), x816 --dump-symbols):
+    # a diagnostic print changes nothing about what is an error
+    import vf.frontends as fe
+    import vf.harness as hn
+
+    dump = (idx + len(name)) % 3 == 0
     for entry in entries:
         if FAULTS[name][0] == "bytes" and entry == "string":
             continue          # the in-memory API takes text: there is no undecodable byte to hand it
-        failed, announces, detail, obj, _ = run_entry(entry, src, files, rom)
+        fe.DUMP_SYMBOLS["on"] = hn.DUMP_SYMBOLS["on"] = dump
+        try:
+            failed, announces, detail, obj, _ = run_entry(entry, src, files, rom)
+        finally:
+            fe.DUMP_SYMBOLS["on"] = hn.DUMP_SYMBOLS["on"] = False
+        if dump:
+            res.count("faulty_sources_with_symbol_dump_on")
         res.case((src, entry), True)
         res.count(f"fault[{name}]")
         res.count(f"entry[{entry}]")
-        wit = {"src": src, "entry": entry, "rom": rom, "fault": name, "files": {k: (v if isinstance(v, str) else bytes(v).hex()) for k, v in files.items()}}
+        wit = {"src": src, "entry": entry, "rom": rom, "fault": name, "dump": dump, "idx": idx, "files": {k: (v if isinstance(v, str) else bytes(v).hex()) for k, v in files.items()}}
         if not failed:
             mech = "error-not-detected" if entry == "string" else "failure-reported-as-success"
             res.violate(mech, f"{entry}: injected {name} at statement position {idx}, yet {('the API returned None' if entry == 'string' else detail)}"
@@ -275,7 +292,14 @@ def run_shard(shard: dict) -> Res:
 def replay(w: dict) -> Res:
     res = Res()
     files = {k: (v if k.endswith(".s") else bytes.fromhex(v)) for k, v in w["files"].items()}
-    failed, announces, detail, obj, _ = run_entry(w["entry"], w["src"], files, w["rom"])
+    import vf.frontends as fe
+    import vf.harness as hn
+
+    fe.DUMP_SYMBOLS["on"] = hn.DUMP_SYMBOLS["on"] = bool(w.get("dump"))
+    try:
+        failed, announces, detail, obj, _ = run_entry(w["entry"], w["src"], files, w["rom"])
+    finally:
+        fe.DUMP_SYMBOLS["on"] = hn.DUMP_SYMBOLS["on"] = False
     res.case((w["src"], w["entry"]), True)
     if w.get("fault"):
         if not failed or announces:
